@@ -1,6 +1,7 @@
 package checks
 
 import (
+	"bytes"
 	"fmt"
 	"reflect"
 	"strings"
@@ -552,6 +553,38 @@ func c17Calls() []c17Call {
 		}
 		return nil
 	})
+	add("Transaction.Bulk with caller-owned insert and replace documents", func() []interface{} {
+		return []interface{}{
+			&bson.D{{Key: "_id", Value: i(71)}, {Key: "tags", Value: bson.A{"b1", "b2"}}, {Key: "grid", Value: bson.A{bson.A{i(1)}}}},
+			&bson.D{{Key: "tags", Value: bson.A{"b3"}}, {Key: "n", Value: i(1)}},
+			&bson.D{{Key: "tags", Value: bson.A{"b4", "b5"}}, {Key: "n", Value: i(-78)}},
+		}
+	}, func(w *world.World, a []interface{}) []interface{} {
+		txn, err := w.Engine.Begin(w.Ctx, true)
+		if err != nil {
+			panic(err)
+		}
+		defer w.Engine.Abort(txn)
+		q1 := bD("_id", i(1))
+		res, err := txn.Bulk(lungo.Handle{"d", "c"}, []lungo.Operation{
+			{Opcode: lungo.Insert, Document: a[0].(*bson.D)},
+			{Opcode: lungo.Replace, Filter: &q1, Document: a[1].(*bson.D)},
+			// an insert without _id: the generated one belongs to the stored copy
+			{Opcode: lungo.Insert, Document: a[2].(*bson.D)},
+		}, true)
+		if err != nil {
+			panic(err)
+		}
+		for _, r := range res {
+			if r.Error != nil {
+				panic(r.Error)
+			}
+		}
+		if err := w.Engine.Commit(txn); err != nil {
+			panic(err)
+		}
+		return nil
+	})
 	// ---- listings are built for the caller
 	add("Transaction.ListIndexes / ListCollections / ListDatabases + Index.Config (read only)", func() []interface{} { return nil }, func(w *world.World, a []interface{}) []interface{} {
 		txn, err := w.Engine.Begin(w.Ctx, false)
@@ -709,7 +742,7 @@ func init() {
 		// open and the Close)
 		{
 			mk := func() []interface{} {
-				return []interface{}{bson.M{"owner": "alice", "tags": bson.A{"a", bD("k", bson.A{int32(1)})}, "raw": []byte{1, 2}}}
+				return []interface{}{bson.M{"owner": "alice", "tags": bson.A{"a", bD("k", bson.A{int32(1)})}, "raw": []byte{1, 2}}, bD("tenant", "t", "seq", bson.A{int32(1), bD("k", int32(2))})}
 			}
 			want := ""
 			nslots := len(c17Slots(mk(), "args"))
@@ -717,7 +750,7 @@ func init() {
 				w := world.New()
 				b := lungo.NewBucket(w.Client.Database("d"))
 				args := mk()
-				st, err := b.OpenUploadStreamWithID(w.Ctx, "file", "name", options.GridFSUpload().SetMetadata(args[0]).SetChunkSizeBytes(2))
+				st, err := b.OpenUploadStreamWithID(w.Ctx, args[1], "name", options.GridFSUpload().SetMetadata(args[0]).SetChunkSizeBytes(2))
 				if err != nil {
 					r.Broken("open upload stream: %v", err)
 					w.Close()
@@ -740,12 +773,23 @@ func init() {
 				}
 				got := ""
 				if len(files) == 1 {
-					got = J(canonSorted(refmodel.GetPath(files[0], "metadata")))
+					got = J(canonSorted(refmodel.GetPath(files[0], "metadata"))) + " id " + J(refmodel.GetPath(files[0], "_id"))
 				}
+				// the chunks are filed under the id the stream was opened with, and the file can be downloaded under it
+				var chunks []bson.D
+				if cur, err := b.GetChunksCollection(w.Ctx).Find(w.Ctx, bD(), options.Find().SetSort(bD("n", int32(1)))); err == nil {
+					_ = cur.All(w.Ctx, &chunks)
+				}
+				for _, ch := range chunks {
+					got += " chunk " + J(refmodel.GetPath(ch, "files_id"))
+				}
+				var buf bytes.Buffer
+				n, derr := b.DownloadToStream(w.Ctx, mk()[1], &buf)
+				got += fmt.Sprintf(" download=%d/%v/%v", n, buf.Bytes(), derr)
 				if slot < 0 {
 					want = got
 				} else if got != want {
-					r.Violation("aliasing:argument:OpenUploadStream:metadata", fmt.Sprintf("OpenUploadStreamWithID(metadata): the caller overwrote %s after the call had returned and before the stream was closed; the stored file carries metadata %s instead of %s", path, got, want), map[string]interface{}{"call": "OpenUploadStreamWithID", "mutated": path})
+					r.Violation("aliasing:argument:OpenUploadStream:"+map[bool]string{true: "metadata", false: "id"}[strings.HasPrefix(path, "args[0]")], fmt.Sprintf("OpenUploadStreamWithID(id, metadata): the caller overwrote %s after the call had returned and before the stream was closed; the stored file is %s instead of %s", path, got, want), map[string]interface{}{"call": "OpenUploadStreamWithID", "mutated": path})
 					w.Close()
 					break
 				}
